@@ -1,4 +1,4 @@
-CONSTANT CfgSet <- S_cts_cancel_unfixed
+CONSTANT CfgSet <- Set_c04_unfixed
 INIT MCInit
 NEXT Next
 CHECK_DEADLOCK FALSE
